@@ -52,6 +52,16 @@ int run_c02(const Args& a, Recorder& rec) {
                 TwoParticleGF A(*P.S, *P.H, C1, C2, X3, X4, *P.rho); A.prepare(); A.compute();
                 TwoParticleGF B(*P.S, *P.H, C1, C2, X3, X4, *P.rho); B.prepare(); std::vector<ComplexType> tb = B.compute(false, freqs, P.comm);
                 TwoParticleGF Cc(*P.S, *P.H, C1, C2, X3, X4, *P.rho); Cc.prepare(); std::vector<ComplexType> tc = Cc.compute(true, freqs, P.comm);
+                // call histories on ONE object: prepare()/compute() again, a second frequency list, a non-purging then a purging computation
+                { TwoParticleGF Hh(*P.S, *P.H, C1, C2, X3, X4, *P.rho); Hh.prepare(); Hh.compute(); Hh.prepare(); Hh.compute();
+                  std::vector<FT> f2(freqs.rbegin(), freqs.rend()); TwoParticleGF H2(*P.S, *P.H, C1, C2, X3, X4, *P.rho); H2.prepare(); H2.prepare(); std::vector<ComplexType> t1 = H2.compute(false, freqs, P.comm), t2 = H2.compute(false, f2, P.comm), t3 = H2.compute(true, freqs, P.comm);
+                  // (the library's compute() is once-only: a repeated call returns an empty table -- that is its convention, not demanded otherwise here;
+                  //  a table that IS returned must be right, and the values of the object must not change)
+                  bool ok1 = t1.size() == freqs.size(), ok2 = t2.size() == f2.size(), ok3 = t3.size() == freqs.size();
+                  for (size_t w = 0; w < bx.size(); ++w) { rec.evaluations++; cd va = A(bx[w].get<0>(), bx[w].get<1>(), bx[w].get<2>()); double tp = 1e-10 * (1 + std::abs(va)); std::string kw = kase + " n=(" + std::to_string(bx[w].get<0>()) + "," + std::to_string(bx[w].get<1>()) + "," + std::to_string(bx[w].get<2>()) + ")";
+                      { bool refused = false; cd v2 = 0; try { v2 = H2(bx[w].get<0>(), bx[w].get<1>(), bx[w].get<2>()); } catch (std::exception&) { refused = true; } if (!refused && std::abs(v2 - va) > tp) { rec.violation("C02:call-history:repeated-compute", "after compute(false,list);compute(false,other list);compute(true,list) the object's on-demand values changed", kw); break; } }
+                      if (std::abs(Hh(bx[w].get<0>(), bx[w].get<1>(), bx[w].get<2>()) - va) > tp) { rec.violation("C02:call-history:prepare-compute-twice", "prepare();compute();prepare();compute() on one object changes its values", kw); break; }
+                      if ((ok1 && std::abs(t1[w] - va) > tp) || (ok2 && std::abs(t2[bx.size() - 1 - w] - va) > tp) || (ok3 && std::abs(t3[w] - va) > tp)) { rec.violation("C02:call-history:tables", "a table returned by a repeated compute() (other list / purging after non-purging) differs from the plain value", kw); break; } } }
                 refed::TwoPGFRef R(sp, rc[i], rc[j], rcx[k], rcx[l]);
                 const std::vector<ComplexType>* tn = 0; const std::vector<ComplexType>* ts = 0;
                 // a table is demanded for every component the container STORES (aliases of stored ones are evaluated through them;
@@ -144,6 +154,7 @@ int run_c12(const Args& a, Recorder& rec) {
 }
 
 // ------------------------------------------------------------------------------------------------ C15
+extern "C" void omp_set_num_threads(int);
 struct Stub { long calls; Stub() : calls(0) {} ComplexType value(long a, long b, long c) const { const_cast<Stub*>(this)->calls++; return ComplexType(double(a) + 0.001 * double(b), double(c) + 1e-6 * double(a * 31 + b * 17)); } };
 
 int run_c15(const Args& a, Recorder& rec) {
@@ -154,6 +165,10 @@ int run_c15(const Args& a, Recorder& rec) {
         if ((idx++ % a.nshards) != a.shard) continue;
         std::string kase = "stub window N=" + std::to_string(N); if (!a.want(kase)) continue;
         marker("C15 " + kase); rec.states++; rec.transitions++; rec.nontrivial++;
+        // the fill is an OpenMP loop: every team size (static schedule: deterministic for a given size) must store the same slices
+        for (int team : { 2, 3, 4, 7 }) { omp_set_num_threads(team); Stub st; MatsubaraContainer4<Stub> mt; mt.fill(&st, N); omp_set_num_threads(1); bool bad = false;
+            for (long n1 = -N - 2; n1 <= N + 1 && !bad; ++n1) for (long n2 = -N - 2; n2 <= N + 1 && !bad; ++n2) for (long n3 = -N - 2; n3 <= N + 1; ++n3) { rec.evaluations++;
+                if (mt(n1, n2, n3) != st.value(n1, n2, n3)) { rec.violation("C15:storage-layout:openmp-team", "with an OpenMP team of " + std::to_string(team) + " threads a stored value differs from the source value", kase + " n=(" + std::to_string(n1) + "," + std::to_string(n2) + "," + std::to_string(n3) + ")"); bad = true; break; } } }
         Stub s; MatsubaraContainer4<Stub> mc; mc.fill(&s, N); long fills = s.calls; long hits = 0, misses = 0;
         for (long n1 = -N - 2; n1 <= N + 1; ++n1) for (long n2 = -N - 2; n2 <= N + 1; ++n2) for (long n3 = -N - 2; n3 <= N + 1; ++n3) {
             rec.evaluations++; long before = s.calls; ComplexType v = mc(n1, n2, n3); bool hit = (s.calls == before); (hit ? hits : misses)++;
